@@ -63,7 +63,8 @@ Record inv (s : state) : Prop := mkInv {
             height s <= p_end p /\ covered p;
   i_unq : forall pid p, get pid (pools s) = Some p -> in_queue (queue s) (p_end p, pid) = false -> p_end p <= height s;
   i_qwf : forall e pid, in_queue (queue s) (e, pid) = true -> exists p, get pid (pools s) = Some p /\ p_end p = e;
-  i_qnd : NoDup (queue s)
+  i_qnd : NoDup (queue s);
+  i_height : 0 <= height s
 }.
 
 (** ** sums over the pools *)
